@@ -30,7 +30,7 @@ ASSUMPTIONS = [
 ]
 
 P = PP = None
-NAMES = ['A', 'B', 'C', 'D', 'E', 'F', 'G', 'L', 'M', 'N1', 'N2', 'R', 'S']
+NAMES = ['A', 'B', 'C', 'D', 'E', 'F', 'G', 'L', 'M', 'N1', 'N2', 'R', 'S', 'T', 'X', 'Y', 'Z']
 SMALL = ['A', 'B', 'C']
 FLAGS = [(cs, cd, rd) for cs in (False, True) for (cd, rd) in ((True, True), (True, False), (False, False))]
 PENDING, UNKNOWN, PROMOTED = 0, 1, 2
@@ -63,7 +63,8 @@ def lattice():
     mod = 'verif_lattice'
 
     def mk(name, *bases, qualname=None):
-        c = type(name, bases or (object,), {'__repr__': lambda s: 'REPR<%s>' % type(s).__qualname__})
+        c = type(name, bases or (object,), {'__repr__': lambda s: 'REPR<%s>' % type(s).__qualname__,
+                                            '_only_on': _OnlyOn()})
         c.__module__ = mod
         c.__qualname__ = qualname or name
         return c
@@ -79,15 +80,39 @@ def lattice():
     # two nested classes sharing their __name__ (qualified names differ)
     N1 = mk('N', qualname='Outer1.N')
     N2 = mk('N', qualname='Outer2.N')
+    # a mixin T listed FIRST over a 'solid' base: a builtin (X), a class with __slots__ (Y), an exception (Z)
+    T = mk('T')
+    Sl = type('Sl', (object,), {'__slots__': ('a',), '__repr__': lambda s: 'REPR<Sl>'})
+    Sl.__module__ = mod
+    X = mk('X', T, dict)
+    Y = mk('Y', T, Sl)
+    Z = mk('Z', T, ValueError)
     # R and its subclass S use pretty_repr as their __repr__
     R = mk('R')
     S = mk('S', R)
     R.__repr__ = P.pretty_repr
     S.__repr__ = P.pretty_repr
-    return dict(A=A, B=B, C=C, D=D, E=E, F=F, G=G, L=L, M=M, N1=N1, N2=N2, R=R, S=S)
+    return dict(A=A, B=B, C=C, D=D, E=E, F=F, G=G, L=L, M=M, N1=N1, N2=N2, R=R, S=S, T=T, X=X, Y=Y, Z=Z)
 
 
-BUNDLED = (list,)
+BUNDLED = (list, dict, BaseException)
+
+
+class _OnlyOn:
+    """descriptor: instance._only_on[t] is True for instances of t and raises KeyError otherwise"""
+
+    def __get__(self, obj, owner):
+        return _Lookup(obj)
+
+
+class _Lookup:
+    def __init__(self, obj):
+        self.obj = obj
+
+    def __getitem__(self, t):
+        if isinstance(self.obj, t):
+            return True
+        raise KeyError('sloppy predicate applied to a foreign value')
 ADDR = re.compile(r'0x[0-9a-f]+')     # default object reprs (classes using pretty_repr, unregistered)
 
 
@@ -130,6 +155,11 @@ class Model:
             return self.reg[k]['tag']
         if not self.has_bundled(c):
             for fn, tag in self.preds:
+                if isinstance(fn, tuple):
+                    # a predicate that raises when it is REACHED with a foreign value: contained, repr is used
+                    if issubclass(c, fn[1]):
+                        return tag
+                    return self.base[c]
                 if fn(c):
                     return tag
         return self.base[c]
@@ -245,7 +275,8 @@ def generate(rng, idx, tier):
         if k in ('rc', 'rn'):
             ops.append([k, c, tag] + (['again'] if rng.random() < 0.25 else []))
         elif k == 'rp':
-            ops.append(['rp', c if rng.random() < 0.8 else None, tag, 'fresh' if rng.random() < 0.4 else 'shared'])
+            ops.append(['rp', c if rng.random() < 0.8 else None, tag,
+                        rng.choice(['fresh', 'fresh', 'shared', 'shared', 'shared', 'sloppy'])])
         elif k == 'repr':
             ops.append(['repr', rng.choice(['R', 'S'])])
         elif k == 'pr':
@@ -321,6 +352,12 @@ def execute(spec):
             if op[1] is None:
                 register_pretty(predicate=lambda v: False)(lambda v, ctx, tag=tag: tag)
                 m.preds.append((lambda kls: False, tag))
+            elif len(op) > 3 and op[3] == 'sloppy':
+                # accepts instances of t, RAISES for anything else (it looks at an attribute only they have)
+                t = cls[op[1]]
+                register_pretty(predicate=lambda v, t=t: v._only_on[t])(lambda v, ctx, tag=tag: tag)
+                m.preds.append((('sloppy', t), tag))
+                bump('sloppy_predicates')
             else:
                 t = cls[op[1]]
                 if fresh:
